@@ -322,6 +322,75 @@ def f_mem(lengths=(2,), deltas=DELTAS, ops=("MSTORE", "MSTORE8", "MLOAD", "KECCA
     return out
 
 
+def compile_mem_sequence(seq):
+    """seq: list of (op, address atom, value index).  Same stack discipline as f_mem: inputs x = in_0, y = in_1,
+    stored values in_(2+value index); loads leave their result on the stack."""
+    code = []
+    h = 0
+    for op, a, vi in seq:
+        sub = []
+        hh = h
+
+        def emit_addr():
+            nonlocal hh
+            if isinstance(a, int):
+                sub.append("PUSH %x" % a)
+            elif isinstance(a, V):
+                sub.append("DUP%d" % (hh + a.i + 1))
+            else:
+                sub.append("PUSH %x" % a[2])
+                hh += 1
+                sub.append("DUP%d" % (hh + a[1].i + 1))
+                sub.append("ADD")
+                hh -= 1
+            hh += 1
+        if op in ("MSTORE", "MSTORE8", "SSTORE"):
+            sub.append("DUP%d" % (hh + 2 + vi + 1))
+            hh += 1
+            emit_addr()
+            sub.append(op)
+            hh -= 2
+        elif op in ("MLOAD", "SLOAD"):
+            emit_addr()
+            sub.append(op)
+        else:
+            sub.append("PUSH 20")
+            hh += 1
+            emit_addr()
+            sub.append(op)
+            hh -= 1
+        h = hh
+        code += sub
+    return " ".join(code)
+
+
+def f_mem_mutant_pairs(deltas=(0, 1, 32), ops=("MSTORE", "MSTORE8", "MLOAD", "SSTORE", "SLOAD"), length=2):
+    """pairs (B, B') where B' drops, duplicates or transposes memory/storage operations of B"""
+    atoms = [a for _, a in _addr_atoms(list(deltas))]
+    out = []
+    mem_ops = [o for o in ops if o in ("MSTORE", "MSTORE8", "MLOAD", "KECCAK256")]
+    sto_ops = [o for o in ops if o in ("SSTORE", "SLOAD")]
+    for group in (mem_ops, sto_ops):
+        for seq_ops in itertools.product(group, repeat=length):
+            if not any(o in ("MSTORE", "MSTORE8", "SSTORE") for o in seq_ops):
+                continue
+            for addrs in itertools.product(atoms, repeat=length):
+                base = [(o, a, k) for k, (o, a) in enumerate(zip(seq_ops, addrs))]
+                b = compile_mem_sequence(base)
+                stores = [k for k, (o, _, _) in enumerate(base) if o in ("MSTORE", "MSTORE8", "SSTORE")]
+                # transpose the first two operations (values travel with their operations)
+                if length >= 2:
+                    t = [base[1], base[0]] + base[2:]
+                    n_loads = sum(1 for o, _, _ in base if o in ("MLOAD", "SLOAD", "KECCAK256"))
+                    if n_loads == 0:
+                        out.append((b, compile_mem_sequence(t), "transpose"))
+                if len(stores) >= 1 and all(o in ("MSTORE", "MSTORE8", "SSTORE") for o, _, _ in base):
+                    k = stores[0]
+                    out.append((b, compile_mem_sequence(base[:k] + base[k + 1:]), "drop-store"))
+                    out.append((b, compile_mem_sequence(base[:k + 1] + [base[k]] + base[k + 1:]), "duplicate-store"))
+    return out
+
+
 # ------------------------------------------------------------------------------------------ F-real
 
 def f_real_documents():
